@@ -203,7 +203,7 @@ func c53Draw(rt *rapid.T) c53Case {
 	c.Indent = rapid.Bool().Draw(rt, "indent")
 	// (rapid favours the ends of a range: the rarer classes sit in the middle)
 	switch rapid.IntRange(0, 19).Draw(rt, "ih") {
-	case 7:
+	case 7, 10:
 		c.DocIH = rapid.SampledFrom([]int64{1, 2, 57}).Draw(rt, "docih")
 	case 13:
 		c.DocIH = rapid.SampledFrom([]int64{1, 2, 57}).Draw(rt, "docih")
